@@ -145,7 +145,7 @@ func (fx *Fx) builtinCall(st *State, name string, call *ast.CallExpr, spec bool)
 				return []Val{{T: t, S: SStr, X: r}}
 			}
 			ss := fx.d.sortOf(t)
-			arr := fmt.Sprintf("((as const %s) %s)", arrSort(fx.d.sortOf(u.Elem())), fx.d.zeroOf(u.Elem()))
+			arr := fx.d.constArray(fx.d.sortOf(u.Elem()), fx.d.zeroOf(u.Elem()))
 			return []Val{{T: t, S: ss, X: app("mk_"+ss, arr, n.X)}}
 		case *types.Map:
 			return []Val{fx.newMap(st, t, u)}
@@ -312,7 +312,7 @@ func (fx *Fx) packVariadic(st *State, sig *types.Signature, args []Val) []Val {
 	if ss == SStr {
 		panic(unsupported("variadic bytes"))
 	}
-	arr := fmt.Sprintf("((as const %s) %s)", arrSort(fx.d.sortOf(sl.Elem())), fx.d.zeroOf(sl.Elem()))
+	arr := fx.d.constArray(fx.d.sortOf(sl.Elem()), fx.d.zeroOf(sl.Elem()))
 	for i, a := range args[n:] {
 		arr = app("store", arr, fmt.Sprint(i), a.X)
 	}
@@ -531,8 +531,7 @@ func defaultResultName(i int) string {
 }
 
 func (fx *Fx) callByContract(st *State, key string, spec *FuncSpec, fd *FuncDeclInfo, recv *Val, args []Val, call ast.Node) []Val {
-	fx.callOrd[key]++
-	ord := fx.callOrd[key]
+	ord := fx.siteOrdinal(call, key)
 	bind := fx.specBindings(fd, spec, recv, args)
 	callee := fx.pkg
 	if fd != nil {
@@ -579,6 +578,20 @@ func (fx *Fx) callByContract(st *State, key string, spec *FuncSpec, fd *FuncDecl
 		fx.assumed["assumed contract of "+key] = true
 	}
 	return results
+}
+
+// siteOrdinal numbers the call sites of one callee in source order within the enclosing declaration,
+// so that obligation names do not depend on the order in which paths are explored.
+func (fx *Fx) siteOrdinal(call ast.Node, key string) int {
+	if fx.siteOrd == nil {
+		fx.siteOrd = map[ast.Node]int{}
+	}
+	if n, ok := fx.siteOrd[call]; ok {
+		return n
+	}
+	fx.callOrd[key]++
+	fx.siteOrd[call] = fx.callOrd[key]
+	return fx.callOrd[key]
 }
 
 // instantiate substitutes type parameters in a callee's result type using the actual argument types (best effort).
@@ -735,6 +748,7 @@ func (fx *Fx) abstractCall(st *State, recv string, meth string, args []Val, sig 
 	st.trCols["meth"] = app("store", fx.trCol(st, "meth", SInt), n, fmt.Sprint(fx.v.methNum(meth)))
 	if st.iterK != "" {
 		st.trCols["iter"] = app("store", fx.trCol(st, "iter", SInt), n, st.iterK)
+		st.trCols["callat"] = app("store", fx.trCol(st, "callat", SInt), st.iterK, n)
 	}
 	for j, a := range args {
 		col := fmt.Sprintf("arg_%s_%d", meth, j)
@@ -755,18 +769,22 @@ func (fx *Fx) abstractCall(st *State, recv string, meth string, args []Val, sig 
 	fx.assumed["abstract callee "+meth+": any result, no effect on the library's own state"] = true
 	// optional assumed contract for the abstract callee
 	if spec := fx.v.contracts.Funcs[fx.pkg.name+".@"+meth]; spec != nil {
-		bind := map[string]Val{}
+		saved := map[string]Val{}
+		for k, v := range st.bound {
+			saved[k] = v
+		}
 		for i, p := range spec.Params {
 			if i < len(args) {
-				bind[p] = args[i]
+				st.bound[p] = args[i]
 			}
 		}
 		for i, r := range results {
-			bind[defaultResultName(i)] = r
+			st.bound[defaultResultName(i)] = r
 		}
 		for _, e := range spec.Ensures {
-			st.assume(fx.specEval(st, fx.pkg, bind, nil, e.Expr))
+			st.assume(fx.specEval(st, fx.pkg, nil, nil, e.Expr))
 		}
+		st.bound = saved
 		fx.assumed["assumed contract of abstract callee "+meth] = true
 	}
 	return results
@@ -798,6 +816,19 @@ func (fx *Fx) specBuiltin(st *State, call *ast.CallExpr) ([]Val, bool) {
 			st.assume(a)
 		}
 		return []Val{v}, true
+	case "let":
+		// let(name, value, body): value is evaluated in the current state and stays visible inside old()
+		name := call.Args[0].(*ast.Ident).Name
+		v := fx.eval(st, call.Args[1], true)
+		saved, had := st.bound[name]
+		st.bound[name] = v
+		r := fx.eval(st, call.Args[2], true)
+		if had {
+			st.bound[name] = saved
+		} else {
+			delete(st.bound, name)
+		}
+		return []Val{r}, true
 	case "imp":
 		a := fx.boolTerm(st, call.Args[0], true)
 		b := fx.boolTerm(st, call.Args[1], true)
@@ -935,6 +966,9 @@ func (fx *Fx) specBuiltin(st *State, call *ast.CallExpr) ([]Val, bool) {
 	case "crecv":
 		k := fx.eval(st, call.Args[0], true)
 		return []Val{{S: SRef, X: app("select", fx.trCol(st, "recv", SRef), k.X)}}, true
+	case "callat":
+		k := fx.eval(st, call.Args[0], true)
+		return intV(app("select", fx.trCol(st, "callat", SInt), k.X)), true
 	case "citer":
 		k := fx.eval(st, call.Args[0], true)
 		return intV(app("select", fx.trCol(st, "iter", SInt), k.X)), true
@@ -955,6 +989,9 @@ func (fx *Fx) specBuiltin(st *State, call *ast.CallExpr) ([]Val, bool) {
 		for i, a := range call.Args {
 			vals[i] = fx.eval(st, a, true)
 		}
+		if pf.Opaque {
+			return []Val{fx.opaqueCall(st, pf, vals)}, true
+		}
 		saved := st.bound
 		nb := map[string]Val{}
 		for i, p := range pf.Params {
@@ -971,10 +1008,102 @@ func (fx *Fx) specBuiltin(st *State, call *ast.CallExpr) ([]Val, bool) {
 	return nil, false
 }
 
-// firstPattern picks a trigger term containing the bound variable: the first select/sat application over it.
+// opaqueCall applies an opaque spec function: an SMT function symbol defined by one quantified axiom.
+func (fx *Fx) opaqueCall(st *State, pf *PureFunc, args []Val) Val {
+	name := "spec_" + pf.Name
+	var sorts []string
+	for _, a := range args {
+		name += "_" + sanitize(a.S)
+		sorts = append(sorts, a.S)
+	}
+	if fx.opaqueRet == nil {
+		fx.opaqueRet = map[string]Val{}
+	}
+	ret, done := fx.opaqueRet[name]
+	if !done {
+		// evaluate the body once over placeholder constants, then generalise them into bound variables
+		ph := make([]Val, len(args))
+		nb := map[string]Val{}
+		var binders, phNames []string
+		for i, a := range args {
+			c := fx.d.freshConst("ph_"+pf.Params[i], a.S)
+			ph[i] = Val{T: a.T, S: a.S, X: c}
+			nb[pf.Params[i]] = ph[i]
+			phNames = append(phNames, c)
+			binders = append(binders, fmt.Sprintf("(%s %s)", sym("x_"+pf.Params[i]), a.S))
+		}
+		sp := st.clone()
+		sp.bound = nb
+		sp.names = map[string]types.Object{}
+		n := len(sp.pc)
+		fx.inQuant++
+		body := fx.eval(sp, pf.Body, true)
+		fx.inQuant--
+		if len(sp.pc) != n {
+			panic(unsupported("opaque spec function " + pf.Name + " introduces definitions"))
+		}
+		f := fx.d.declareFun(name, sorts, body.S)
+		term := body.X
+		var actuals []string
+		for i, c := range phNames {
+			v := sym("x_" + pf.Params[i])
+			term = strings.ReplaceAll(term, c, v)
+			actuals = append(actuals, v)
+		}
+		lhs := app(f, actuals...)
+		fx.d.axioms = append(fx.d.axioms, fmt.Sprintf("(assert (forall (%s) (! (= %s %s) :pattern (%s))))", strings.Join(binders, " "), lhs, term, lhs))
+		ret = Val{T: body.T, S: body.S}
+		fx.opaqueRet[name] = ret
+	}
+	var xs []string
+	for _, a := range args {
+		xs = append(xs, a.X)
+	}
+	return Val{T: ret.T, S: ret.S, X: app(sym(name), xs...)}
+}
+
+// firstPattern picks trigger terms for a bounded quantifier: every application (select a qv), (sat s qv),
+// (ringidx h l qv), ... in which the bound variable is a direct argument; each is offered as an alternative pattern.
 func firstPattern(body, qv string) string {
+	var alts []string
+	seen := map[string]bool{}
+	for _, head := range []string{"(ringidx ", "(select ", "(sat ", "(|birth| ", "(fmtU "} {
+		idx := 0
+		for {
+			j := strings.Index(body[idx:], head)
+			if j < 0 {
+				break
+			}
+			start := idx + j
+			end := matchParen(body, start)
+			if end < 0 {
+				break
+			}
+			term := body[start : end+1]
+			idx = start + 1
+			if !strings.HasSuffix(term, " "+qv+")") || seen[term] {
+				continue
+			}
+			// the remaining arguments must not contain the bound variable under arithmetic
+			inner := term[:len(term)-len(qv)-2]
+			if strings.Contains(inner, qv) && (strings.Contains(inner, "(+ ") || strings.Contains(inner, "(- ") || strings.Contains(inner, "(ite ")) {
+				continue
+			}
+			seen[term] = true
+			alts = append(alts, term)
+		}
+	}
+	if len(alts) == 0 {
+		return firstPatternLoose(body, qv)
+	}
+	if len(alts) > 6 {
+		alts = alts[:6]
+	}
+	return strings.Join(alts, ") :pattern (")
+}
+
+func firstPatternLoose(body, qv string) string {
 	best := ""
-	// scan for sub-terms "(select ... qv ...)" or "(sat ...)" that contain qv; choose the innermost-first occurrence
 	for _, head := range []string{"(ringidx ", "(select ", "(sat ", "(|birth| ", "(fmtU "} {
 		idx := 0
 		for {
@@ -1078,8 +1207,11 @@ func (fx *Fx) specCall(st *State, call *ast.CallExpr) []Val {
 		}
 		if bt != nil {
 			for _, p := range fx.v.pkgs {
-				obj, _, _ := types.LookupFieldOrMethod(bt, true, p.types, f.Sel.Name)
+				obj, mpath, _ := types.LookupFieldOrMethod(bt, true, p.types, f.Sel.Name)
 				if fn, ok := obj.(*types.Func); ok {
+					if len(mpath) > 1 {
+						rp = fx.walkFields(st, rp, bt, mpath[:len(mpath)-1], exprText(f.X), true)
+					}
 					fn = fn.Origin()
 					sig := fn.Type().(*types.Signature)
 					if fn.Pkg() != nil && fx.v.pkgByTypes[fn.Pkg()] == nil {
